@@ -109,6 +109,10 @@ def _one(item):
         if np.all(np.diff(x32) > 0) and x32[-1] <= 1.0:
             xs, as_f32 = x32, True
             kind += "+float32-input"
+            # the evaluation points below are drawn from [xmin, xmax]: these are now the rounded end points
+            # (seed sweep: points between the double and the float32 x_min fell outside the grid -> harness errors)
+            xmin = float(xs[0]) if xs[0] > 0 else xmin
+            xmax = float(xs[-1])
     mode = "log" if is_log else "lin"
     rec = dict(
         idx=idx, mode=mode, n=n, d=d, kind=kind, xmin=xmin, xmax=xmax,
